@@ -99,6 +99,8 @@ impl Reporter {
                 Err(e) => crate::machinery(format!("known-findings.json does not parse: {e}")),
             }
         }
+        // a run that dies before `finish` must not leave an older run's evidence behind
+        let _ = std::fs::remove_file(verif_root().join("evidence").join(format!("{property}.json")));
         Self {
             property: property.to_string(),
             engine: engine.to_string(),
@@ -176,9 +178,9 @@ impl Reporter {
     }
 
     /// Write evidence + replay files, print the verdict lines, and exit.
-    pub fn finish(self, mut coverage: Map<String, Value>, assumptions: Vec<String>) -> ! {
+    pub fn finish(&self, mut coverage: Map<String, Value>, assumptions: Vec<String>) -> ! {
         let root = verif_root();
-        let g = self.inner.into_inner().unwrap();
+        let g = self.inner.lock().unwrap();
         let unknown: u64 = g.violations.values().map(|f| f.count).sum();
 
         // vacuity guard required by the evidence schema for exploration levels
